@@ -101,7 +101,7 @@ theorem resolveLoop_waitInv (ev : Ev) (step nw : Nat) (now : Int) :
       have hw' := waiterMatches_sound hm
       have hall : WaitersSound (done ++ { w with resolved := some ev } :: rest) :=
         waitersSound_append h1 (waitersSound_cons hw' hrest)
-      have hinv := addOrEnqueue_waitInv { ev := w.ev } step
+      have hinv := addOrEnqueue_waitInv w.replay step
         { ss with waiters := done ++ { w with resolved := some ev } :: rest } nw now ⟨hall, h3⟩
       exact resolveLoop_waitInv ev step nw now rest _ _ _ _
         (waitersSound_append h1 (waitersSound_cons hw' (fun _ h => by simp at h))) hrest hinv.2
@@ -214,8 +214,8 @@ theorem applyRes_waitInv (cfg : Cfg) (pol : Policy) (step : Nat) (tickEv : Ev) (
     · exact ⟨hst, hex⟩
   | addWaiter wid waiterEv req timeout ty =>
     simp only [applyRes]
-    have hnew : WaiterSound { wid := wid, ev := acc.exec.ev, waitTy := ty, req := req, hasReq := req.isSome } := by
-      intro e he; simp at he
+    have hnew : WaiterSound (newWaiter acc.exec wid ty req) := by
+      intro e he; simp [newWaiter] at he
     split
     · refine ⟨WaitInv.set hst _ _ ⟨?_, (hst step).2⟩, hex⟩
       exact waitersSound_modifyFirst _ _ (fun _ _ => hnew) _ (hst step).1
